@@ -251,6 +251,12 @@ func features(files []*GFile) []string {
 			if len(in.Vars) > 0 {
 				add("inc:vars")
 			}
+			if strings.Contains(in.Taskfile, "{{") || strings.Contains(in.Dir, "{{") {
+				add("inc:template")
+			}
+			if strings.Contains(in.NS, ":") {
+				add("colon:namespace")
+			}
 			if in.NS == "cyc" {
 				add("inject:cycle")
 			}
@@ -273,6 +279,9 @@ func features(files []*GFile) []string {
 			for _, kv := range t.Attrs {
 				add("attr:" + kv.K)
 			}
+			if strings.Contains(t.Name, ":") {
+				add("colon:taskname")
+			}
 			for _, c := range append(append([]GCmd{}, t.Cmds...), t.Deps...) {
 				if strings.HasPrefix(c.Task, ":") {
 					add("rootref")
@@ -285,6 +294,7 @@ func features(files []*GFile) []string {
 
 func Main(args []string) {
 	o := common.ParseOpts(args)
+	_ = os.Setenv(EnvToolName, EnvToolValue) // the environment variable the generated include templates refer to
 	mode := o.Extra["mode"]
 	if mode == "" {
 		mode = "c08"
@@ -316,6 +326,8 @@ func Main(args []string) {
 			var gf []*GFile
 			if o.Tier == "thorough" && c.Index < EnumSmallCount {
 				gf = EnumSmall(c.Index, cr) // small-scope exhaustive part of the thorough tier
+			} else if mode == "c09" && c.Index%3 == 1 {
+				gf = GenerateTpl(cr, c.Index/3) // templated nested include paths
 			} else {
 				gf = Generate(cr, GenOpts{Mode: mode, Index: c.Index})
 			}
